@@ -69,7 +69,7 @@ pub fn swarm(seed: u64, class: Class, max_steps: usize) -> Swarm {
         Class::C01 => [30, 8, 2, 10, 8, 3, 1, 8, 6, 10, 2, 0, 2, 0, 2, 12],
         Class::C02 => [4, 1, 40, 5, 3, 2, 1, 3, 2, 6, 2, 0, 3, 0, 0, 14],
         Class::C03 => [2, 1, 8, 0, 40, 25, 5, 0, 0, 2, 0, 0, 0, 14, 0, 4],
-        Class::C10 => [5, 1, 8, 0, 10, 25, 15, 0, 0, 3, 2, 0, 35, 0, 0, 3],
+        Class::C10 => [5, 1, 8, 0, 10, 25, 15, 0, 0, 3, 2, 0, 35, 6, 0, 3],
         Class::C11 => [12, 10, 10, 1, 2, 0, 0, 2, 2, 10, 20, 25, 2, 0, 6, 5],
         Class::Mixed => [12, 5, 12, 6, 8, 6, 3, 6, 6, 8, 4, 3, 5, 0, 3, 8],
     };
@@ -336,8 +336,20 @@ fn gen_specdir(r: &mut Rng, sw: &Swarm) -> Vec<FileSpec> {
     const DIRS: [&str; 5] = ["env", "env.build", "env.launch", "env.launch/web", "env.launch/worker"];
     const SUFFIXLESS: [&str; 5] = ["FOO", "PATH", "lower", "X_Y", "ÜNI"];
     const UNKNOWN: [&str; 4] = ["FOO.unknown", "BAR.", "A.APPEND", "B.append.bak"];
-    let n = 1 + r.usize(6);
     let mut out: Vec<FileSpec> = Vec::new();
+    if r.chance(1, 6) {
+        // a directory that holds nothing but delimiter files, next to one with entries
+        let var = *r.pick(&["PATH", "LD_LIBRARY_PATH", "FOO"]);
+        let only = *r.pick(&["env.build", "env.launch", "env.launch/web", "env"]);
+        let f = |path: String, data: &[u8]| FileSpec { path: path.into_bytes(), data: data.to_vec(), mode: 0o644 };
+        out.push(f(format!("{only}/{var}.delim"), b":"));
+        if only != "env" {
+            out.push(f(format!("env/{var}.prepend"), b"/opt/x/bin"));
+            out.push(f(format!("env/{var}.delim"), b":"));
+        }
+        return out;
+    }
+    let n = 1 + r.usize(6);
     for _ in 0..n {
         let dir = *r.pick(&DIRS);
         let name: Vec<u8> = match r.below(4) {
